@@ -13,6 +13,7 @@ EXPLANATION = ('Static rules on scheduler.rs: H1 OnceTask/FutureTask call their 
                'task can no longer act; H6 all schedule impls are instances of one macro. H4 repeating tasks tick only after a Ready period timer that is re-armed with the period each time, count seq by +1 and stop when the task declines (same rules as C08.I1/I2, C16.E3). '
                'H7 task handles registered with a MultiSubscription are let go only by unsubscribing them (same rule as C17.K6), so a cancelled pipeline cannot leave a task that still starts. '
                'H8 a stored task handle is overwritten only when it is known to be absent or closed, or after it was taken out and unsubscribed: dropping a TaskHandle does not cancel its task, so an overwritten pending handle leaves a task that unsubscribe() can no longer reach. '
+               'H10 every TaskHandle obtained from Scheduler::schedule in an operator is stored where the returned subscription finds it (same rule as C02.U1 for the scheduling functions): a dropped handle leaves a task that still starts after unsubscribe(). '
                'H9 the _at sources hand the scheduler exactly deadline - now as the delay (same rule as C07.T2), so a repeating task cannot start before the requested instant. '
                'Does not decide virtual-time run orders.')
 ASSUMPTIONS = ['the timer future returned by new_timer completes no earlier than its duration (trusted dependency)']
@@ -34,7 +35,7 @@ def check(cx):
     res = []
     res += h1(cx) + h3(cx)
     if not cx.control:
-        res += h2(cx) + h5(cx) + h6(cx) + h4(cx) + h7(cx)
+        res += h2(cx) + h5(cx) + h6(cx) + h4(cx) + h7(cx) + h10(cx)
     res += h8(cx)
     if not cx.control:
         from . import c07
@@ -42,6 +43,25 @@ def check(cx):
             if f.key.startswith(('observable::interval::', 'observable::timer::')):
                 res.append(Finding(ID, 'H9', f.key, f.ok, f.msg, f.loc, f.witness))
     return res
+
+
+def h10(cx):
+    """a scheduled task stays reachable through its handle: every TaskHandle a notification handler or actual_subscribe obtains from
+    Scheduler::schedule is stored where the subscription handed to the caller finds it (same rule as C02.U1, restricted to the
+    functions that schedule tasks) — a dropped TaskHandle does not cancel its task, which then still starts after unsubscribe()"""
+    from . import c02
+    sched = set()
+    for fn in c02._roots(cx):
+        g = cx.graph(fn['key'])
+        if any(n['kind'] in ('call', 'enter') and not n['ctx'] and n['name'] == c02.SCHEDULE for n in g.nodes):
+            sched.add(cx.label(fn))
+    out = []
+    for f in c02.u1(cx):
+        if f.key in sched and (f.ok or 'task handle' in f.msg):
+            out.append(Finding(ID, 'H10', f.key, f.ok, f.msg, f.loc, f.witness))
+    if len(out) < 10:
+        out.append(Finding(ID, 'H10', 'floor', False, 'expected >= 10 functions that schedule tasks, found %d' % len(out)))
+    return out
 
 
 def h7(cx):
@@ -63,7 +83,7 @@ def h1(cx):
         fn = F.impl_fn(im, 'poll')
         g = cx.graph(fn['key'])
         label = cx.label(fn)
-        calls = [x for x in g.nodes if x['kind'] == 'call' and x['name'] == '<fnptr>' and not x['ctx']]
+        calls = [x for x in g.nodes if x['kind'] == 'call' and x['name'] == '<fnptr>']   # (also inside a closure given to Poll::map)
         ok = len(calls) == 1
         msg = 'task function runs on arguments taken out of the Option slot'
         for x in calls:
